@@ -249,7 +249,7 @@ class CSim:
                 dcrit = list(struct.unpack("<%dQ" % nd, raw))
             rc = "%d%d" % (1 if rim.recalculate_r_crit_this_timestep else 0, 1 if rim.recalculate_coordinates_this_timestep else 0)
         return dict(N=n, nact=s.N_active, nalloc=nalloc, nvar=s.N_var, troot=1 if s._tree_root else 0,
-                    ps=ps, tbl=tbl, tail=tail, dcrit=dcrit, rc=rc, stale=stale, ap_bad=ap_bad)
+                    ps=ps, tbl=tbl, tail=tail, dcrit=dcrit, rc=rc, stale=stale, ap_bad=ap_bad, nal=s.N_allocated_lookup)
 
     def mk(self, ident, h, geo):
         p = self.P()
@@ -418,8 +418,8 @@ def fmt_state(out, st):
     ps = ",".join("%d.%d.%d" % p for p in st["ps"]) or "-"
     tb = ",".join("%d.%d" % e for e in st["tbl"]) or "-"
     dc = ",".join(str(x) for x in st["dcrit"]) or "-"
-    return "%s %d %d %d %d %d ps=%s tbl=%s tail=%d dcrit=%s rc=%s" % (out, st["N"], st["nact"], st["nalloc"], st["nvar"],
-                                                                     st["troot"], ps, tb, st["tail"], dc, st["rc"])
+    return "%s %d %d %d %d %d ps=%s tbl=%s tail=%d dcrit=%s rc=%s cap=%d" % (out, st["N"], st["nact"], st["nalloc"], st["nvar"],
+                                                                            st["troot"], ps, tb, st["tail"], dc, st["rc"], st["nal"])
 
 
 def model_line(op, st_after):
